@@ -100,6 +100,35 @@ class ResubSim(Sim):
             self.note("resubmission skipped: base submission did not complete")
             return False
         before, missing, rsum = self.snapshot_results()
+        if flags.get("bad_groups"):
+            # first the user passes a groups file that does not fit the submission (one group too many / a group that does not
+            # exist): the command must fail without erasing anything and without keeping the role - the real command follows
+            import copy
+            import json
+
+            data = json.load(open(os.path.join(self.out, "submitter_groups.json")))
+            if flags["bad_groups"] == "length":
+                extra = copy.deepcopy(data[0])
+                extra["name"] = "one_too_many"
+                data.append(extra)
+            else:
+                data[-1]["name"] = "no_such_group"
+            bf = os.path.join(self.root, f"groups_bad{k}.json")
+            json.dump(data, open(bf, "w"), indent=2)
+            nl0 = sum(len(v) for v in self.launches.values())
+            nb0 = len(self.sbatches)
+            btag = f"resubbad{k}"
+            self.spawn_top(btag, ["jade", "resubmit-jobs", self.outname, "-s", bf], rs.get("host", "login"))
+            self.drive()
+            self.bad_groups_checked = getattr(self, "bad_groups_checked", 0) + 1
+            if self.top_rc.get(btag) == 0:
+                self.viol("C13", "malformed-groups-accepted", f"resubmit-jobs -s with a groups file that does not fit the submission ({flags['bad_groups']}) exited 0")
+            o = self.observe("after refused input") or (self.obs[-1] if self.obs else None)
+            after_bad, missing_bad, _ = self.snapshot_results()
+            if after_bad != before or sorted(missing_bad) != sorted(missing) or sum(len(v) for v in self.launches.values()) != nl0 or len(self.sbatches) != nb0:
+                self.viol("C13", "failed-command-changed-results", f"resubmit-jobs failed on its input ({flags['bad_groups']}) but results / launches changed: {len(before)} -> {len(after_bad)} results, {len(self.sbatches) - nb0} batches")
+            if o and (not o["complete"] or o["submitter"] is not None):
+                self.viol("C13", "failed-command-left-state", f"after resubmit-jobs failed on its input: complete={o['complete']} submitter={o['submitter']}")
         cls = {n: self.classify_tuple(v) for n, v in before.items()}
         sel = set()
         if flags.get("failed", True):
@@ -319,5 +348,6 @@ class ResubSim(Sim):
         res["refusals_checked"] = getattr(self, "refusals_checked", 0)
         res["resub_fault_checked"] = getattr(self, "resub_fault_checked", 0)
         res["resub_sizes"] = getattr(self, "resub_sizes", [])
+        res["bad_groups_checked"] = getattr(self, "bad_groups_checked", 0)
         res["resub_flags"] = (self.resub or {}).get("flags")
         return res
